@@ -260,6 +260,26 @@ func (e *constEnv) eqLiterals(fn string, min int64) (string, bool) {
 	return strings.Join(parts, ","), true
 }
 
+// census of the encoder functions of package packet: every function or method whose name says it
+// encodes (Encode*, *Marshal, marshal, marshalOptions, encodeName, SetPayload, AppendPayload,
+// AppendOptions), as "Recv.Name", sorted.  The model keeps the same list, each entry classified as
+// modelled by C03, modelled by another cluster, or not modelled: a new, removed or renamed encoder shows.
+func (e *constEnv) census() string {
+	var names []string
+	for n := range e.funcs {
+		base := n
+		if i := strings.LastIndex(n, "."); i >= 0 {
+			base = n[i+1:]
+		}
+		if strings.HasPrefix(base, "Encode") || strings.HasSuffix(base, "Marshal") || base == "marshal" || base == "marshalOptions" ||
+			base == "encodeName" || base == "SetPayload" || base == "AppendPayload" || base == "AppendOptions" {
+			names = append(names, n)
+		}
+	}
+	sort.Strings(names)
+	return strings.Join(names, ",")
+}
+
 func runConsts(r *lib.Run) {
 	dir := os.Getenv("VERIF_REPO")
 	if dir == "" {
@@ -278,6 +298,7 @@ func runConsts(r *lib.Run) {
 		r.Case("consts", []string{name}, val)
 	}
 	num := func(v int64, ok bool) (string, bool) { return strconv.FormatInt(v, 10), ok }
+	r.Case("census", []string{"encoders"}, env.census())
 	// declared constants
 	for _, n := range []string{"EthMaxSize", "EthHeaderLen", "EthAddrLen", "EthType8021AD", "HeaderLen", "UDPHeaderLen",
 		"IP6HeaderLen", "ARPLen", "ARPOperationRequest", "ARPOperationReply", "ICMP4TypeEchoReply", "ICMP4TypeEchoRequest",
